@@ -161,6 +161,7 @@ void XmppSocket::setSocket(QSslSocket *socket)
         // do not emit started() with direct TLS (this happens in encrypted())
         if (!m_directTls) {
             m_dataBuffer.clear();
+            m_undecodedBytes.clear();
             m_streamOpenElement.clear();
             Q_EMIT started();
         }
@@ -169,6 +170,7 @@ void XmppSocket::setSocket(QSslSocket *socket)
         debug(u"Socket encrypted"_s);
         // this happens with direct TLS or STARTTLS
         m_dataBuffer.clear();
+        m_undecodedBytes.clear();
         m_streamOpenElement.clear();
         Q_EMIT started();
     });
@@ -176,7 +178,30 @@ void XmppSocket::setSocket(QSslSocket *socket)
         warning(u"Socket error: "_s + m_socket->errorString());
     });
     QObject::connect(socket, &QSslSocket::readyRead, this, [this]() {
-        processData(QString::fromUtf8(m_socket->readAll()));
+        // A read may end in the middle of a multi-byte UTF-8 sequence: only decode complete
+        // characters and keep the incomplete tail for the next read.
+        m_undecodedBytes.append(m_socket->readAll());
+
+        auto completeLength = m_undecodedBytes.size();
+        for (auto i = completeLength - 1; i >= 0 && i >= completeLength - 4; --i) {
+            const auto byte = static_cast<unsigned char>(m_undecodedBytes.at(i));
+            if ((byte & 0xC0) == 0x80) {
+                // continuation byte, look for the lead byte
+                continue;
+            }
+            const auto expectedLength = byte >= 0xF0 ? 4 : (byte >= 0xE0 ? 3 : (byte >= 0xC0 ? 2 : 1));
+            if (i + expectedLength > completeLength) {
+                completeLength = i;
+            }
+            break;
+        }
+        if (completeLength == 0 && !m_undecodedBytes.isEmpty()) {
+            return;
+        }
+
+        const auto data = QString::fromUtf8(m_undecodedBytes.constData(), int(completeLength));
+        m_undecodedBytes.remove(0, completeLength);
+        processData(data);
     });
 }
 
